@@ -70,6 +70,32 @@ Definition judge_layout (c : layout_case) : Z :=
       if zl_eqb (map (sum_at es) (all_indices sh)) expected then 0 else 3
   end.
 
+(* the same for arrays too large to densify (extents up to 2^31 and beyond): the expected array is given by
+   its nonzero entries [(index tuple, value)], without repeats.
+   0 ok | 1/4 as above | 2 a coordinate outside the shape or a position outside `values`
+   3 the stored nonzero entries are not exactly the expected ones *)
+Definition sparse_case := (list Z * list Z * list Z * list (list Z) * list Z * list (list Z * Z))%type.
+
+Definition entry_in (es : list (idx * Z)) (e : idx * Z) : bool :=
+  existsb (fun x => idx_eqb (fst x) (fst e) && (snd x =? snd e)) es.
+
+Definition judge_sparse (c : sparse_case) : Z :=
+  let '(lv, order, sh, arrs, data, expected) := c in
+  let lvs := map lvl_of lv in
+  if negb (Nat.eqb (length (fields_of_levels lvs)) (S (length arrs))) then 4 else
+  match assemble lvs (lvl_shape order sh) arrs with
+  | None => 1
+  | Some st =>
+    let w := walk st 0 in
+    if negb (forallb (fun e => Shape.in_rangeb sh (to_dims order (fst e))
+                               && (0 <=? snd e) && (snd e <? Z.of_nat (length data))) w) then 2
+    else
+      let es := map (fun e => (to_dims order (fst e), nthd 0 data (snd e))) w in
+      (* merge repeated coordinates, drop explicit zeros *)
+      let merged := filter (fun e => negb (snd e =? 0)) (map (fun e => (fst e, sum_at es (fst e))) es) in
+      if forallb (entry_in expected) merged && forallb (entry_in merged) expected then 0 else 3
+  end.
+
 (* ---------------------------------------------------------------- to_numpy *)
 (* (order, array shape, stored values, shape of to_numpy's result, its elements in C order) *)
 Definition tonumpy_case := (list Z * list Z * list Z * list Z * list Z)%type.
